@@ -156,11 +156,21 @@ JointUnique(st) == Goto(Collect(st, JointUniqueErrors(st.S, st.obj)), "component
 (* restore in `finally` -- two steps per component so that the override is a       *)
 (* visible state                                                                   *)
 ComponentBegin(st) == Goto([st EXCEPT !.sch[st.k] = FALSE], "component_body")
+(* ColumnBackend.validate fills the column default itself, on the container's working frame (inplace=True): *)
+(* this is where a REGEX column gets its default - the container stage only knows literal column names      *)
+FillByComponent(cs, D) ==
+  IF IsNull(cs.default) THEN D
+  ELSE [D EXCEPT !.cols = [ j \in 1..Len(@) |->
+          IF Matches(cs, @[j].name) /\ HasNull(@[j].cells)
+          THEN [@[j] EXCEPT !.cells = [ r \in 1..Len(@) |-> IF IsNull(@[r]) THEN cs.default ELSE @[r] ]]
+          ELSE @[j] ]]
 ComponentBody(st) ==
   LET cs == st.S.cols[st.k]
-      es == IF ComponentActive(cs, st.obj)
-            THEN ColumnComponentErrorsWith(cs, st.obj, "DuplicateNullsNotReported" \notin st.dev) ELSE <<>>
-  IN Goto([Collect(st, es) EXCEPT !.sch[st.k] = cs.coerce, !.k = st.k + 1], "component")
+      st1 == IF ComponentActive(cs, st.obj) /\ FillByComponent(cs, st.obj) # st.obj
+             THEN Write(st, FillByComponent(cs, st.obj)) ELSE st
+      es == IF ComponentActive(cs, st1.obj)
+            THEN ColumnComponentErrorsWith(cs, st1.obj, "DuplicateNullsNotReported" \notin st1.dev) ELSE <<>>
+  IN Goto([Collect(st1, es) EXCEPT !.sch[st.k] = cs.coerce, !.k = st.k + 1], "component")
 IndexComponent(st) ==
   Goto(Collect(st, IF "IndexFailureCasesByPosition" \in st.dev
                    THEN IndexErrorsByPosition(st.S, st.obj) ELSE IndexErrorsIdeal(st.S, st.obj)), "finish")
